@@ -88,7 +88,11 @@ func (m *Map) Entries() []*Entry {
 	for _, e := range m.m {
 		out = append(out, e)
 	}
-	sort.Slice(out, func(i, j int) bool { return out[i].Ref.String() < out[j].Ref.String() })
+	keys := make(map[*Entry]string, len(out))
+	for _, e := range out {
+		keys[e] = e.Ref.String()
+	}
+	sort.Slice(out, func(i, j int) bool { return keys[out[i]] < keys[out[j]] })
 	return out
 }
 
